@@ -3,4 +3,4 @@ Require Import ExtrOcamlBasic.
 From Coq Require Import ZArith NArith.
 From SWH.lib Require Import Sha1.
 From SWH.model Require Import Time Rel.
-Extraction "extract/C04/model.ml" release_git_object release_valid parse_tag rtt_of_git_type sha1 Z.of_N N.to_nat.
+Extraction "extract/C04/model.ml" release_git_object rel_compute_hash release_valid parse_tag rtt_of_git_type sha1 Z.of_N N.to_nat.
